@@ -39,9 +39,16 @@ of wrap_line() with a zero limit, the two `off += n - 2` of qp_header()) is reac
 theorem terminates_full : ∀ (cfg : Cfg) (m : List Byte), sendData cfg m ≠ .error .hang :=
   QrData.sendData_nh
 
-/-- **no_fault**: nothing is read outside the message (or outside the part or header field a
-function was given) and nothing is written outside a staging buffer. -/
-def no_fault_full : Prop := ∀ (cfg : Cfg) (m : List Byte) (f : Fault), sendData cfg m ≠ .error (.fault f)
+/-- **no_fault** (as given, proved in full — Lemmas/QrNoFault.lean, Lemmas/MimeNoFault.lean): for
+every message and every configuration nothing is read outside the message (or outside the part or
+header field a function was given) and nothing is written outside a staging buffer.  The reads the C
+code does not guard are shown to be stopped by something else: the blank searches of wrap_line() by
+the 970 byte minimum of the line, the staging buffers by their flush tests, the look-ahead reads of
+mime.c by the CR or LF that ends every field getfieldlen() delimits, the `assert()` on the closing
+quote of a boundary by mime_param() having seen it, and the size `header - (cenc.s + cenc.len)` by the
+header scan resuming at most two bytes in front of the end of the field it has just found. -/
+theorem no_fault_full : ∀ (cfg : Cfg) (m : List Byte) (f : Fault), sendData cfg m ≠ .error (.fault f) :=
+  QrData.sendData_nf
 
 /-- **legal_data**: whenever the transfer completes, what was sent after the 354 reply is legal SMTP
 data ending in the terminator line, for both values of 8BITMIME. -/
@@ -139,11 +146,11 @@ theorem legal_data_plain (cfg : Cfg) (m : List Byte) (h : PlainChosen cfg m) :
     · simp only [hend, Bool.false_eq_true, if_false, termNoLf_eq] at hleg ⊢
       simpa using hleg
 
-/-- **terminates / no_fault / legal_data, proved part.** On the plain path of send_data() and in
-recode_qp() on any input: no hang, no fault; on the plain path the data is legal.
-Missing for the full statements: wrap_line()/wrap_header(), qp_header(), the MIME functions and the
-multipart walk of send_qp() — modelled and compared with the implementation on every run, not yet
-proved. -/
+/-- **legal_data, proved part** (terminates and no_fault are proved in full above; the `_partial`
+forms are kept as corollaries).  On the plain path of send_data() the data is legal.  Missing for
+`legal_data_full`: the output of wrap_line()/wrap_header(), qp_header() and the multipart walk of
+send_qp() — modelled and compared with the implementation on every run, their legality checked on
+the implementation's output, not yet proved. -/
 theorem terminates_partial (cfg : Cfg) (m : List Byte) (h : PlainChosen cfg m) (b : List Byte) (st0 : St) :
     sendData cfg m ≠ .error .hang ∧ recodeQp b st0 ≠ .error .hang := by
   obtain ⟨st, e, _⟩ := legal_data_plain cfg m h
